@@ -140,7 +140,7 @@ CORPUS = [
     'pipe d 1 c 3000 2500 1024 s1 z20 s2 z1100 s3 / R',
     'pipe d 1 c 3000 2500 1024 s1 z5 m2,3 z1100 s4 / R R',
     'pipe d 1 c 3000 1500 1024 s1 s2 y close / c,s0',
-    'pipe f 1 c 3000 1500 1024 s1 y close s2 /',
+    'pipe f 1 c 3000 1500 1024 s1 s2 z3 close / c,l50',
     # session mode: fragmented client pipeline, reply order
     'pipe d 1 s 3000 2000 1024 F7 s1 s2 s3 s4 / c,x3,f2',
     'pipe f 2 s 3000 2000 1024 F3 s1 s2 s3 s4 s5 s6 / c,l3 / c',
